@@ -843,6 +843,8 @@ func (t *c15Trace) monitors(fl []string, class string, pre c15Snap, preLocks []l
 					what = "unsorted-active-streams"
 				case t.ptrStreamGone:
 					what = "pointer-stream-terminated"
+				case t.midEpochJoin:
+					what = "stream-activated-mid-epoch"
 				}
 				r.Hit("paging-differs/" + what)
 				r.Violate("C15/paging_independent/"+what, fmt.Sprintf("at the end of a `%s` epoch stream %d has handed out %s with the configured per-block limits but %s with an unlimited budget",
